@@ -13,6 +13,69 @@ from . import core, programs, vmtie, coregen, coretie
 CONTROL = {"if_stmt", "while_loop", "else_stmt", "done", "jmp", "jmp_pop", "ret", "ret_mod", "store_skip", "jmp_not_nil"}
 
 
+def register_definite_assignment(code, opname):
+    """UNVERIFIED extra pass (a lint, not part of the proved certificate): on EVERY path a compiler temporary `#k` is
+    written (store_fast / the fall-through of store_skip) before `load_fast #k` reads it, in a block frame that is still
+    open at the read.  Must-analysis over the same edges as the certificate; the state at an instruction is the set of
+    (register, depth of the frame holding it) pairs written on all paths.  Returns None or a description."""
+    n = len(code)
+    state = {0: (0, frozenset())}
+    work = [0]
+
+    def pop_to(regs, d):
+        return frozenset((r, rd) for r, rd in regs if rd <= d)
+    while work:
+        ip = work.pop()
+        if ip >= n:
+            continue
+        d, regs = state[ip]
+        op, args = code[ip]
+        name = opname.get(op, "?")
+        try:
+            if name == "load_fast" and args and args[0].startswith("#"):
+                if not any(r == args[0] for r, _ in regs):
+                    return "load_fast %s at instruction %d can be reached on a path that never wrote %s in an open frame" % (args[0], ip, args[0])
+            if name in ("if_stmt", "while_loop"):
+                succ = [(ip + 1, d + 1, regs), (ip + int(args[0]), d, regs)]
+            elif name == "else_stmt":
+                succ = [(ip + 1, d + 1, regs)]
+            elif name == "done":
+                succ = [(ip + 1, d - 1, pop_to(regs, d - 1))]
+            elif name == "jmp":
+                succ = [(ip + int(args[0]), d, regs)]
+            elif name == "jmp_pop":
+                k = int(args[1]) if len(args) > 1 else 1
+                succ = [(ip + int(args[0]), d - k, pop_to(regs, d - k))]
+            elif name == "store_skip":
+                succ = [(ip + 1, d, regs | {(args[0], d)} if args[0].startswith("#") else regs), (ip + int(args[2]), d, regs)]
+            elif name == "jmp_not_nil":
+                succ = [(ip + 1, d, regs), (ip + int(args[0]), d, regs)]
+            elif name in ("ret", "ret_mod"):
+                succ = []
+            elif name in ("store_fast", "store") and args and args[0].startswith("#"):
+                succ = [(ip + 1, d, frozenset((r, rd) for r, rd in regs if r != args[0]) | {(args[0], d)})]
+            elif name in ("delete_name_scoped", "delete_name_reference_scoped"):
+                gone = set(a for a in args if a.startswith("#"))
+                succ = [(ip + 1, d, frozenset((r, rd) for r, rd in regs if not (r in gone and rd == d)))]
+            else:
+                succ = [(ip + 1, d, regs)]
+        except (ValueError, IndexError):
+            return None          # malformed control instructions are the certificate's business
+        for t, dd, rr in succ:
+            if t < 0 or t >= n or dd < 0:
+                continue
+            if t not in state:
+                state[t] = (dd, rr)
+                work.append(t)
+            else:
+                d0, r0 = state[t]
+                meet = r0 & rr
+                if meet != r0:
+                    state[t] = (d0, meet)
+                    work.append(t)
+    return None
+
+
 def extended_structural_check(code, opname):
     """UNVERIFIED fallback for functions that use opcodes outside the modelled set: depth-only abstract
     interpretation over the control opcodes (every other opcode is taken to fall through without touching
@@ -147,6 +210,9 @@ def run(ctx):
     for i, tree in enumerate(skel + extra_skel):
         tree = coregen.assign_spans(tree, "main.ms")
         projs.append({"name": "skeleton%d" % i, "files": {"main.ms": coregen.render_ms(tree)}, "entry": "main.ms", "kind": "skeleton"})
+    for i, tree in enumerate(coregen.boolean_chain_programs() + coregen.precedence_programs()):
+        tree = coregen.assign_spans([coregen.Gen.norm_s(s) for s in tree], "main.ms")
+        projs.append({"name": "boolchain%d" % i, "files": {"main.ms": coregen.render_ms(tree)}, "entry": "main.ms", "kind": "skeleton"})
     for p in coretie.gen_programs(ctx, 60 if ctx.quick() else 600):
         p["kind"] = "generated"
         projs.append(p)
@@ -190,6 +256,11 @@ def run(ctx):
             for name, code in fns.items():
                 q = "%s#%s" % (f, name)
                 n_fn += 1
+                lint = register_definite_assignment(code, opname)
+                if lint:
+                    ctx.report("register-read-before-write", "function %s of %s: %s" % (q, proj["name"], lint),
+                               {"project": {k: v for k, v in proj.items() if k != "tree"}, "function": q, "code": code[:200],
+                                "pass": "unverified definite-assignment analysis of compiler temporaries"})
                 key = tuple((op, tuple(a) if opname.get(op) in CONTROL else ()) for op, a in code)
                 okc = certs.get(q, (False, None))[0]
                 if okc:
